@@ -436,6 +436,12 @@ func randomWM(r *hx.Run, rng *hx.Rng, sub uint64) {
 			if a.op == "below" && (rng.Chance(1, 2) || (m.kind() == "stack" && a.arg == "0")) {
 				a.arg = "1" // WaitIsZero / WaitIsEmpty (a stack never gets below 0)
 			}
+			if rng.Chance(1, 6) {
+				// corner thresholds of every Wait*: WaitIsAbove(MaxInt) / WaitIsBelow(MinInt) can never return, their
+				// neighbours return only at the very end of the range, the opposite ends return at once
+				a.arg = strconv.Itoa(hx.Pick(rng, []int{math.MaxInt, math.MinInt, math.MaxInt - 1, math.MinInt + 1}))
+				r.Count(m.kind() + "-op:wait-extreme-threshold")
+			}
 		}
 		if len(idle) == 1 && (a.op == "below" || a.op == "above" || a.op == "poporwait") && rng.Chance(2, 3) {
 			a.op, a.arg = "add", "1" // keep a mutator available
@@ -645,14 +651,36 @@ func (w *wmWorld) arriveGap(a, b int) string {
 
 // releaseAll makes every pending wait return (not part of the compared trace) so that no goroutine leaks,
 // and checks that they do return.
+// neverReleased: how many of the pending waits releaseAll cannot release (a bound): WaitIsAbove(MaxInt) and
+// WaitIsBelow(MinInt) of a Counter never return; a Stack driven between 0 and size+4 elements does not release
+// WaitSizeIsBelow(thr <= 0) nor WaitSizeIsAbove(thr >= 4).  Their goroutines are left behind, as they have to be.
+func (w *wmWorld) neverReleased() int {
+	n := 0
+	for i, p := range w.pending {
+		if p == nil || w.actors[i].state.Load() != stBusy {
+			continue
+		}
+		thr, _ := strconv.Atoi(p.arg)
+		switch {
+		case w.m.kind() == "counter" && p.op == "above" && thr == math.MaxInt,
+			w.m.kind() == "counter" && p.op == "below" && thr == math.MinInt,
+			w.m.kind() == "stack" && p.op == "below" && thr <= 0,
+			w.m.kind() == "stack" && p.op == "above" && thr >= 4:
+			n++
+		}
+	}
+
+	return n
+}
+
 func (w *wmWorld) releaseAll(r *hx.Run) {
 	deadline := time.Now().Add(settleTimeout)
-	for busyCount(w.actors) > 0 && time.Now().Before(deadline) {
+	for busyCount(w.actors) > w.neverReleased() && time.Now().Before(deadline) {
 		switch m := w.m.(type) {
 		case *counterMon:
-			m.c.Set(1000)
+			m.c.Set(math.MaxInt)
 			time.Sleep(30 * time.Microsecond)
-			m.c.Set(-1000)
+			m.c.Set(math.MinInt)
 		case *stackMon:
 			for i := 0; i < 4; i++ {
 				m.s.Push(-1)
@@ -666,7 +694,7 @@ func (w *wmWorld) releaseAll(r *hx.Run) {
 		}
 		time.Sleep(20 * time.Microsecond)
 	}
-	if busyCount(w.actors) > 0 {
+	if busyCount(w.actors) > w.neverReleased() {
 		stalls.Add(1)
 		r.Fail("wait-lost-wakeup", w.m.kind()+": a waiter did not return although its condition was made true repeatedly; statuses="+statuses(w.actors),
 			sig("api", w.m.kind(), "oracle", "blocked-at-end"))
